@@ -88,8 +88,10 @@ def _one_qubit_product(classes: List[str]):
 def _tableau_product(repo: Repo, names: List[str]):
     u = cl.I2
     for n in names:
-        _, g = gatesum.summarise(repo, n)
-        u = cl.mm(g, u)
+        r = gatesum.summarise_or_none(repo, n)
+        if r is None:
+            raise AnalysisError(f"transform.{n}: sign update is not a Pauli conjugation (reported by effect.derived-gate)")
+        u = cl.mm(r[1], u)
     return u
 
 
